@@ -58,6 +58,13 @@ pub fn race_world() -> WorldSpec {
     w.push(Entry::file("root (deleted)/file", "DECOY-DELETED-SIBLING-FILE"));
     w.push(Entry::link("root (deleted)/b-link", "DECOY-BODY-deleted-sibling-b-link"));
     w.push(Entry::dir("root (deleted)/etc-target"));
+    // a sibling whose name is the root's name followed by the name of a first-level entry: a
+    // containment check that compares byte prefixes ("/mnt/w/root" + "a/b") takes /mnt/w/roota/b
+    // for /mnt/w/root/a/b
+    w.push(Entry::dir("roota/b"));
+    w.push(Entry::link("roota/b-link", "DECOY-BODY-roota-b-link"));
+    w.push(Entry::file("roota/file", "DECOY-ROOTA-FILE"));
+    w.push(Entry::file("roota/etc/passwd", "DECOY-ROOTA-PASSWD"));
     w
 }
 
@@ -88,6 +95,9 @@ pub fn race_mutations() -> Vec<(Mutation, Option<Mutation>)> {
         let dst = format!("root (deleted)/{n}");
         v.push((Mutation::Rename { src: src.into(), dst: dst.clone() }, Some(Mutation::Rename { src: dst, dst: src.into() })));
     }
+    // into the sibling named root+"a": the moved directory's parent chain then *spells* like the expected path
+    v.push((Mutation::Rename { src: "root/a/b/c".into(), dst: "roota/b/c".into() }, Some(Mutation::Rename { src: "roota/b/c".into(), dst: "root/a/b/c".into() })));
+    v.push((Mutation::Exchange { a: "root/a/b".into(), b: "roota/b".into() }, Some(Mutation::Exchange { a: "root/a/b".into(), b: "roota/b".into() })));
     for (path, target) in [
         ("root/a/b", "/mnt/w/outside/landing/a/b"),
         ("root/a/b", "../../outside/landing/a/b"),
